@@ -1,4 +1,4 @@
-import NopModel.Lemmas.RoundTrip
+import NopModel.Lemmas.XRel
 /-! Cross-version table reading: entries are matched by id, whatever the two definitions'
 orders; unknown and deleted ids are skipped by their declared size. -/
 namespace Nop
@@ -94,6 +94,18 @@ def present : List (Nat × Bool) → List Val → List (Nat × Val)
   | _ :: es, _ :: vs => present es vs
   | _, _ => []
 
+/-- ... each seen through the transformer `F id` of its entry type pair -/
+def presentF (F : Nat → Val → Val) : List (Nat × Bool) → List Val → List (Nat × Val)
+  | (id, _) :: es, .tag _ x :: vs => (id, F id x) :: presentF F es vs
+  | _ :: es, _ :: vs => presentF F es vs
+  | _, _ => []
+
+theorem presentF_id : ∀ (es : List (Nat × Bool)) (vs : List Val), presentF (fun _ x => x) es vs = present es vs
+  | [], _ => by simp [presentF, present]
+  | _ :: _, [] => by simp [presentF, present]
+  | (id, d) :: es, v :: vs => by
+    cases v <;> simp [presentF, present, presentF_id es vs]
+
 /-- what the reader's slot for entry `e` holds after the writer's entries `done` were read -/
 def xslot (done : List (Nat × Val)) (e : Nat × Bool) : Val :=
   if e.2 then .nil else
@@ -159,13 +171,13 @@ theorem lookup_snoc_none {done : List (Nat × Val)} {id k : Nat} {x : Val} (hl :
   simp [List.lookup, this]
 
 /-- the reader's loop over the entries one writer definition emitted -/
-theorem xEntries (eR : List (Nat × Bool)) (tR : List Ty) (hlenR : eR.length = tR.length) (hdR : idsDistinct eR = true) :
+theorem xEntriesF (F : Nat → Val → Val) (eR : List (Nat × Bool)) (tR : List Ty) (hlenR : eR.length = tR.length) (hdR : idsDistinct eR = true) :
     ∀ (tW : List Ty) (eW : List (Nat × Bool)) (vw : List Val) (done : List (Nat × Val)) (h : HChan) (ebs : Bytes) (h' : HChan),
       (∀ e ∈ eW, e.1 < 2 ^ 64) → idsDistinct eW = true → (∀ e ∈ eW, done.lookup e.1 = none) →
-      (∀ p ∈ eW.zip tW, ∀ q ∈ eR.zip tR, p.1.1 = q.1.1 → q.1.2 = false → XRT p.2 q.2) →
+      (∀ p ∈ eW.zip tW, ∀ q ∈ eR.zip tR, p.1.1 = q.1.1 → q.1.2 = false → XR p.2 q.2 (F p.1.1)) →
       validEntries eW tW vw = true → encEntries eW tW vw h = .ok (ebs, h') →
       DecOK (itM (activeCount vw) (fun cur => decInt .u64 >>= fun id => decEntry eR tR id.toNat cur) (eR.map (xslot done)))
-        (eR.map (xslot (done ++ present eW vw))) ebs h'.pushed
+        (eR.map (xslot (done ++ presentF F eW vw))) ebs h'.pushed
   | [], eW, vw, done, h, ebs, h', _, _, _, _, hv, he => by
     cases eW with
     | nil =>
@@ -173,7 +185,7 @@ theorem xEntries (eR : List (Nat × Bool)) (tR : List Ty) (hlenR : eR.length = t
       | nil =>
         simp only [encEntries, Except.ok.injEq, Prod.mk.injEq] at he
         obtain ⟨rfl, rfl⟩ := he
-        simp only [activeCount, itM_zero, present, List.append_nil]
+        simp only [activeCount, itM_zero, presentF, List.append_nil]
         exact DecOK.pure _
       | cons _ _ => simp [validEntries] at hv
     | cons e _ => obtain ⟨_, _⟩ := e; simp [validEntries] at hv
@@ -187,15 +199,15 @@ theorem xEntries (eR : List (Nat × Bool)) (tR : List Ty) (hlenR : eR.length = t
       | cons v vw =>
         rw [idsDistinct_cons] at hdW
         have hlt' : ∀ e ∈ eW, e.1 < 2 ^ 64 := fun e hem => hlt e (List.mem_cons_of_mem _ hem)
-        have hx' : ∀ p ∈ eW.zip tW, ∀ q ∈ eR.zip tR, p.1.1 = q.1.1 → q.1.2 = false → XRT p.2 q.2 :=
+        have hx' : ∀ p ∈ eW.zip tW, ∀ q ∈ eR.zip tR, p.1.1 = q.1.1 → q.1.2 = false → XR p.2 q.2 (F p.1.1) :=
           fun p hp => hx p (by simp only [List.zip_cons_cons]; exact List.mem_cons_of_mem _ hp)
         cases v with
         | nil =>
           simp only [validEntries, Bool.true_and] at hv
           simp only [encEntries] at he
-          have ih := xEntries eR tR hlenR hdR tW eW vw done h ebs h' hlt' hdW.2
+          have ih := xEntriesF F eR tR hlenR hdR tW eW vw done h ebs h' hlt' hdW.2
             (fun e hem => hdone e (List.mem_cons_of_mem _ hem)) hx' hv he
-          simpa [activeCount, Val.isNil, present] using ih
+          simpa [activeCount, Val.isNil, presentF] using ih
         | tag i x =>
           have hi : i = 1 := by
             by_cases h1 : i = 1
@@ -223,17 +235,17 @@ theorem xEntries (eR : List (Nat × Bool)) (tR : List Ty) (hlenR : eR.length = t
                 obtain ⟨rfl, rfl⟩ := he
                 have hidlt : id < 2 ^ 64 := hlt (id, false) (List.mem_cons_self ..)
                 have hdid : done.lookup id = none := hdone (id, false) (List.mem_cons_self ..)
-                have hdone' : ∀ e ∈ eW, (done ++ [(id, x)]).lookup e.1 = none := fun e hem =>
+                have hdone' : ∀ e ∈ eW, (done ++ [(id, F id x)]).lookup e.1 = none := fun e hem =>
                   lookup_snoc_none (hdone e (List.mem_cons_of_mem _ hem)) (hdW.1 e hem)
-                have ih := xEntries eR tR hlenR hdR tW eW vw (done ++ [(id, x)]) h1 rest h2 hlt' hdW.2 hdone' hx' hvrest hb
+                have ih := xEntriesF F eR tR hlenR hdR tW eW vw (done ++ [(id, F id x)]) h1 rest h2 hlt' hdW.2 hdone' hx' hvrest hb
                 have hm := encEntries_mono eW tW vw h1 rest h2 hb
-                have hfin : done ++ present ((id, false) :: eW) (Val.tag 1 x :: vw) = (done ++ [(id, x)]) ++ present eW vw := by
-                  simp [present]
+                have hfin : done ++ presentF F ((id, false) :: eW) (Val.tag 1 x :: vw) = (done ++ [(id, F id x)]) ++ presentF F eW vw := by
+                  simp [presentF]
                 rw [hfin]
                 -- the step that reads (or skips) this entry
                 have hstep : DecOK
                     (decInt .u64 >>= fun id' => decEntry eR tR id'.toNat (eR.map (xslot done)))
-                    (eR.map (xslot (done ++ [(id, x)])))
+                    (eR.map (xslot (done ++ [(id, F id x)])))
                     (encInt .u64 id ++ (encSize (size t x) ++ (vb ++ List.replicate (size t x - vb.length) 0)))
                     h1.pushed := by
                   refine DecOK.bind (DecOK.decInt (u64_inRange hidlt)) ?_ rfl
@@ -251,28 +263,28 @@ theorem xEntries (eR : List (Nat × Bool)) (tR : List Ty) (hlenR : eR.length = t
                     have hmem : ((id, false), tm) ∈ (pe ++ (id, false) :: se).zip (pt ++ tm :: st) := by
                       rw [List.zip_append (by omega)]
                       exact List.mem_append_right _ (by simp)
-                    have hxrt : XRT t tm := hx ((id, false), t) (by simp) _ hmem rfl rfl
+                    have hxrt : XR t tm (F id) := hx ((id, false), t) (by simp) _ hmem rfl rfl
                     have hcur : (pe ++ (id, false) :: se).map (xslot done) =
                         pe.map (xslot done) ++ Val.nil :: se.map (xslot done) := by
                       rw [List.map_append, List.map_cons, xslot_none done id false hdid]
-                    have hnew : (pe ++ (id, false) :: se).map (xslot (done ++ [(id, x)])) =
-                        pe.map (xslot done) ++ Val.tag 1 x :: se.map (xslot done) := by
-                      rw [List.map_append, List.map_cons, xslot_snoc_eq done id x hdid]
+                    have hnew : (pe ++ (id, false) :: se).map (xslot (done ++ [(id, F id x)])) =
+                        pe.map (xslot done) ++ Val.tag 1 (F id x) :: se.map (xslot done) := by
+                      rw [List.map_append, List.map_cons, xslot_snoc_eq done id (F id x) hdid]
                       congr 1
-                      · exact List.map_congr_left (fun e he => xslot_snoc_ne done id x e (Or.inr (hpe e he)))
+                      · exact List.map_congr_left (fun e he => xslot_snoc_ne done id (F id x) e (Or.inr (hpe e he)))
                       · congr 1
-                        exact List.map_congr_left (fun e he => xslot_snoc_ne done id x e (Or.inr (hse e he)))
+                        exact List.map_congr_left (fun e he => xslot_snoc_ne done id (F id x) e (Or.inr (hse e he)))
                     rw [hcur, hnew]
-                    exact decEntry_hit id (size t x) tm x vb pe se pt st
+                    exact decEntry_hit id (size t x) tm (F id x) vb pe se pt st
                       (pe.map (xslot done)) (se.map (xslot done)) (by omega) (by simp; omega) hpe hsz (by omega)
-                      (hxrt x h vb h1 hvx ha)
+                      (hxrt x h vb h1 (dflt tm) hvx ha)
                   · have hdel : ∀ e ∈ eR, e.1 = id → e.2 = true := by
                       intro e he heq
                       obtain ⟨a, b⟩ := e
                       cases b with
                       | true => rfl
                       | false => simp only at heq; subst heq; exact absurd he hact
-                    have hsame : eR.map (xslot (done ++ [(id, x)])) = eR.map (xslot done) := by
+                    have hsame : eR.map (xslot (done ++ [(id, F id x)])) = eR.map (xslot done) := by
                       apply List.map_congr_left
                       intro e he
                       apply xslot_snoc_ne
@@ -286,5 +298,16 @@ theorem xEntries (eR : List (Nat × Bool)) (tR : List Ty) (hlenR : eR.length = t
                 simp [List.append_assoc]
         | int _ => simp [validEntries] at hv
         | list _ => simp [validEntries] at hv
+
+/-- the same with identical values across (`XRT`: same or fungible entry types) -/
+theorem xEntries (eR : List (Nat × Bool)) (tR : List Ty) (hlenR : eR.length = tR.length) (hdR : idsDistinct eR = true)
+    (tW : List Ty) (eW : List (Nat × Bool)) (vw : List Val) (done : List (Nat × Val)) (h : HChan) (ebs : Bytes) (h' : HChan)
+    (hlt : ∀ e ∈ eW, e.1 < 2 ^ 64) (hdW : idsDistinct eW = true) (hdone : ∀ e ∈ eW, done.lookup e.1 = none)
+    (hx : ∀ p ∈ eW.zip tW, ∀ q ∈ eR.zip tR, p.1.1 = q.1.1 → q.1.2 = false → XR p.2 q.2 id)
+    (hv : validEntries eW tW vw = true) (he : encEntries eW tW vw h = .ok (ebs, h')) :
+    DecOK (itM (activeCount vw) (fun cur => decInt .u64 >>= fun id => decEntry eR tR id.toNat cur) (eR.map (xslot done)))
+      (eR.map (xslot (done ++ present eW vw))) ebs h'.pushed := by
+  have := xEntriesF (fun _ x => x) eR tR hlenR hdR tW eW vw done h ebs h' hlt hdW hdone hx hv he
+  rwa [presentF_id] at this
 
 end Nop
